@@ -515,9 +515,63 @@ class Scanner:
         return sorted(sites, key=lambda s: (s["file"], s["line"], s["sink"]))
 
 
+def id_hash_sites(sc: "Scanner") -> list[dict]:
+    """every `id(x)` / `hash(x)` call: object addresses and string hashes differ between processes, so they may only be used
+    for membership tests (set/dict of ids) or inside __str__/__repr__ (diagnostics), never to name or order anything"""
+    out = []
+    for f, tree in sc.trees.items():
+        for q, fn, chain in qual_functions(tree):
+            parents = {}
+            for n in own_nodes(fn):
+                for ch in ast.iter_child_nodes(n):
+                    parents[ch] = n
+            for n in own_nodes(fn):
+                if isinstance(n, ast.Call) and isinstance(n.func, ast.Name) and n.func.id in ("id", "hash") and len(n.args) == 1:
+                    use = "other"
+                    p = parents.get(n)
+                    hops = 0
+                    while p is not None and hops < 4:
+                        if isinstance(p, ast.SetComp) or (isinstance(p, ast.Compare) and any(isinstance(o, (ast.In, ast.NotIn, ast.Eq, ast.NotEq, ast.Is, ast.IsNot)) for o in p.ops)):
+                            use = "membership"
+                            break
+                        if isinstance(p, ast.Call) and isinstance(p.func, ast.Attribute) and p.func.attr in ("add", "discard", "remove") :
+                            use = "membership"
+                            break
+                        if isinstance(p, ast.Subscript) and isinstance(parents.get(p), (ast.Assign, ast.Compare, ast.Expr, ast.Return, ast.If)) :
+                            use = "membership"
+                            break
+                        p = parents.get(p)
+                        hops += 1
+                    if use == "other" and fn.name in ("__str__", "__repr__", "__hash__", "__eq__"):
+                        use = "repr"
+                    out.append({"site": f"{f.replace('onnxscript/', '')}:{q}", "call": n.func.id, "use": use})
+    return sorted(out, key=lambda d: (d["site"], d["call"], d["use"]))
+
+
+PRIVATE_ENTRIES = [("RewriteRuleSet", "_apply_to_graph_or_function", {"apply_to_model", "_apply_to_graph_or_function"})]
+
+
+def private_entry_calls(sc: "Scanner") -> list[str]:
+    """calls of a private method that relies on state its public entry sets up (RewriteRuleSet._value_names is
+    (re)computed by apply_to_model only), from anywhere but that entry / itself"""
+    out = []
+    for cls, meth, allowed in PRIVATE_ENTRIES:
+        for f, tree in sc.trees.items():
+            for q, fn, chain in qual_functions(tree):
+                in_cls = any(isinstance(c, ast.ClassDef) and c.name == cls for c in chain)
+                if in_cls and fn.name in allowed:
+                    continue
+                for n in own_nodes(fn):
+                    if isinstance(n, ast.Call) and isinstance(n.func, ast.Attribute) and n.func.attr == meth:
+                        out.append(f"{f}:{q}")
+    return sorted(set(out))
+
+
 def extract(repo: Path) -> dict:
     sc = Scanner(repo)
     return {
+        "privateEntryCalls": private_entry_calls(sc),
+        "idHashSites": id_hash_sites(sc),
         "files": sc.files,
         "globalRows": sc.global_rows(),
         "registerCallsInFunctions": sc.register_calls_in_functions(),
@@ -551,6 +605,8 @@ def emit_lean(d: dict) -> str:
     out.append(",\n".join(rows))
     out += ["]", "", "/-- `register(...)` calls that sit inside a function body (would extend a registry after import) -/",
             "def registerCallsInFunctions : List String := " + llist(d["registerCallsInFunctions"]), "",
+            "/-- calls of `RewriteRuleSet._apply_to_graph_or_function` from anywhere but `apply_to_model` / itself -/",
+            "def privateEntryCalls : List String := " + llist(d["privateEntryCalls"]), "",
             "def entryRows : List EntryRow := ["]
     out.append(",\n".join(
         "  { name := " + lstr(r["name"]) + ", entry := " + lstr(r["entry"]) + f", missing := {str(r['missing']).lower()}"
@@ -563,6 +619,9 @@ def emit_lean(d: dict) -> str:
         "  { site := " + lstr(f"{s['file'].replace('onnxscript/', '')}:{s['func']}") + ", expr := " + lstr(s["expr"]) + ", sink := " + lstr(s["sink"])
         + f", orderSensitive := {str(s['orderSensitive']).lower()}" + " }"
         for s in d["setIterSites"]))
+    out += ["]", "", "/-- every `id(x)` / `hash(x)` call on the path: (site, function called, how the result is used) -/",
+            "def idHashSites : List (String × String × String) := ["]
+    out.append(",\n".join("  (" + lstr(x["site"]) + ", " + lstr(x["call"]) + ", " + lstr(x["use"]) + ")" for x in d["idHashSites"]))
     out += ["]", "", "end OV.Gen.C14Globals", ""]
     return "\n".join(out)
 
@@ -591,5 +650,7 @@ if __name__ == "__main__":
         print("ENTRY", json.dumps(r))
     for s in d["setIterSites"]:
         print("SETITER", s["file"], s["line"], s["func"], s["sink"], s["orderSensitive"], s["expr"])
+    for x in d["idHashSites"]:
+        print("IDHASH", x)
     if "--write" in sys.argv:
         print(write_lean(d, Path(__file__).resolve().parent.parent / "lean"))
